@@ -17,4 +17,12 @@ PROPS = {
         "assumptions": ["regexp (RE2 leftmost-first matching of \\$(\\d+)|\\?) and strconv.Atoi are modelled by the byte scanner in coq/Wire/Params.v; the correspondence check compares them on every generated query"],
         "trusted": ["Go regexp and strconv (modelled, compared on every case)"],
     },
+    "C17": {
+        "projection": "raw bytes written by the real wire.ErrorCode for the same error value",
+        "rule": "corpus (nil error, repaired-defect witnesses, source lines at byte/int32 boundaries), then ALL decorator sequences of depth <= 4 (quick) / 6 (thorough) over 7 decorator kinds incl. fmt.Errorf %w wrapping (exhaustive), "
+                "then random trees of depth <= 8 with empty/unicode texts, repeated and shadowed decorators; the library's own constructors; non-trivial = at least one decorator; distinct = by error tree",
+        "exhaustive": True,
+        "assumptions": ["errors.Unwrap of error types other than the package's decorators and single-%w fmt.Errorf is a base error (joined errors, custom Unwrap are outside the model)"],
+        "trusted": ["Go fmt/errors wrapping semantics as written into coq/Wire/Errors.v (compared on every case)"],
+    },
 }
